@@ -222,10 +222,11 @@ MANIFEST_TEXT = {
              "Correspondence: each operator in its four ownership variants and both scalar orders must agree with each other and with the model on boundary scalars (0, 1, l-1, u64::MAX), identity points, random values.",
         note="Trusted: Lean kernel; dalek modelled as a module over a field (wrap-around mod l is the field arithmetic)."),
     "C12": dict(
-        technique="Lean 4 proof (ok-iff characterisation, re-encode and decode∘encode laws per raw codec from the codec laws) + differential correspondence incl. Pod, base64 and JSON forms",
+        technique="Lean 4 proof (ok-iff characterisation, re-encode and decode∘encode laws per raw codec from the codec laws; base64 text form: b64_roundtrip, b64_canonical, pod_text_roundtrip) + differential correspondence incl. Pod, base64 and JSON forms",
         text="Theorems: point / scalar / ciphertext / key-pair / AE decoders succeed iff exact length and every component decodes (key pair: non-zero secret and public = s^-1 H), re-encoding returns the input bytes, decoding an encoding returns the object, encodings are unique. "
              "Correspondence: all lengths 0..2N, special values and z+k*l in every field, Pod<->typed agreement, grouped ciphertexts with 0..3 handles, extraction = to_elgamal_ciphertext, base64 padding/alphabet/trailing-bit/whitespace variants, JSON key-file variants, writers. "
-             "PARTIAL: base64 and serde_json are modelled, not proved canonical; bincode/serde derive forms and the private proof structs' from_bytes are only exercised through verify_proof.",
+             "Base64 text form: decode(encode b) = b for every byte string, an accepted text is the encoding of its decoding (canonical padding / alphabet / trailing bits: unique text form), FromStr(Display) = id for every fixed-size type; exercised for all 7 data pods, all 12 proof pods and the typed AE ciphertext. "
+             "PARTIAL: the base64 crate and serde_json are modelled (the model is what is proved canonical), compared differentially; the JSON grammar is differential only; bincode/serde derive forms and the private proof structs' from_bytes are only exercised through verify_proof.",
         note="Trusted: Lean kernel; dalek codec laws assumed; base64/serde_json external."),
     "C13": dict(
         technique="Lean 4 proof (round trip for all keys/nonces/u64 amounts, layout, exact tamper-acceptance condition; generic in the block cipher) + differential interop with an independent AES-128-GCM-SIV written in Lean",
